@@ -35,6 +35,7 @@ func openOut(dir string) *outFiles {
 	must(err)
 	fo, err := os.Create(filepath.Join(dir, "oracle.txt"))
 	must(err)
+	startWatchdog(dir)
 	return &outFiles{bufio.NewWriterSize(fc, 1<<20), bufio.NewWriterSize(fi, 1<<20), bufio.NewWriterSize(fo, 1<<16), fc, fi, fo, map[string]int{}, dir}
 }
 
